@@ -82,11 +82,24 @@ theorem validUtf8_append {a b : Bytes} (ha : validUtf8 a = true) (hb : validUtf8
     validUtf8 (a ++ b) = true := by
   rw [validUtf8_append_eq a b ha]; exact hb
 
-/-- **ASCII splitting** (the form of the task statement) -/
+/-- `é` ++ `😀` -/
+example : validUtf8 ([0xc3, 0xa9] ++ [0xf0, 0x9f, 0x98, 0x80]) = true :=
+  validUtf8_append (by decide +kernel) (by decide +kernel)
+/-- the converse fails: a valid string cut inside a character gives invalid pieces -/
+example : validUtf8 ([0xc3] ++ [0xa9]) = true ∧ validUtf8 [0xc3] = false ∧ validUtf8 [0xa9] = false := by
+  decide +kernel
+
+/-- **ASCII splitting**: `a`, an ASCII byte, `b` -/
 theorem validUtf8_ascii_split {a b : Bytes} {c : UInt8} (hc : c < 0x80)
     (h : validUtf8 (a ++ [c] ++ b) = true) : validUtf8 a = true ∧ validUtf8 b = true := by
   rw [List.append_assoc, List.singleton_append, validUtf8_ascii_split_eq a b c hc, Bool.and_eq_true] at h
   exact h
+
+/-- `é"😀` cut at the quote -/
+example : validUtf8 [0xc3, 0xa9] = true ∧ validUtf8 [0xf0, 0x9f, 0x98, 0x80] = true :=
+  validUtf8_ascii_split (c := 0x22) (by decide) (by decide +kernel)
+/-- `c < 0x80` is needed: `é` cut at its second byte -/
+example : validUtf8 ([0xc3] ++ [0xa9] ++ []) = true ∧ validUtf8 [0xc3] = false := by decide +kernel
 
 /-- cut *before* an ASCII byte: both pieces (the second one starting with the ASCII byte) are valid -/
 theorem validUtf8_cut_before {a b : Bytes} {c : UInt8} (hc : c < 0x80)
